@@ -153,7 +153,9 @@ impl<'a, S: Clone + Bits> Annot<'a, S> {
             if self.acc_sids.insert(sid) {
                 self.accepted.push((sid, s.clone()));
             }
-            newacc.push(sid);
+            if !newacc.contains(&sid) {
+                newacc.push(sid);
+            }
         }
     }
 
@@ -667,7 +669,7 @@ impl<'a, S: Clone + Bits> Annot<'a, S> {
             }
             let truth = self.g.valid(&q);
             // was it pushed? the next roadmap entry (by index) must be this state
-            let pushed = road.get(n_before).map(|(s, _)| s.bits() == q.bits()).unwrap_or(false) && truth;
+            let pushed = road.get(n_before).map(|(s, _)| s.bits() == q.bits()).unwrap_or(false);
             let mut links = Vec::new();
             if pushed {
                 let me = n_before;
